@@ -719,6 +719,18 @@ def shim(names):
                 return canv
             patch(urwid.Scrollable, "render", sc_render)
             setattr(urwid.Scrollable, "render", wm.cache_widget_render(urwid.Scrollable))
+        if "cleanup-drops-deps-of-collected-canvas" in names:
+            orig_cleanup = CanvasCache.__dict__["cleanup"].__func__
+
+            def cleanup(cls, ref):
+                info = cls._refs.get(ref, None)
+                dependants = list(cls._deps.get(info[0], ())) if info else []
+                orig_cleanup(cls, ref)
+                if info and info[0] not in cls._widgets:
+                    # the dependants list went away with the last canvas: who depended on it can no longer be told
+                    for d in dependants:
+                        cls.invalidate(d)
+            patch(CanvasCache, "cleanup", classmethod(cleanup))
         if "rows-cache-off" in names:
             # not a repair: rows() never answered from cached canvases; used to recognise differences that exist only
             # because some widget's rows() disagrees with its own render().rows() (property C11)
@@ -789,7 +801,7 @@ PUBLIC_IDS = set()     # ids of the widgets reachable through public attributes 
 
 
 ROOT_CAUSES = [["store-checks-widget-not-canvas"], ["pile-hidden-child"], ["columns-hidden-child"], ["frame-hidden-child"], ["overlay-hidden-top"],
-               ["scrollable-render-moves-scrollpos"]]
+               ["scrollable-render-moves-scrollpos"], ["cleanup-drops-deps-of-collected-canvas"]]
 
 
 def run_real(case):
@@ -1270,17 +1282,42 @@ class C06(core.Check):
                                                ["render", sb, 1, 1], ["mut", idx, api, b, sb], ["render", sb, 1, 0],
                                                ["render", sa, 1, 0]]}
 
+    @staticmethod
+    def single_mutation_cases(tier):
+        """Small scope, exhaustive: every public mutation the harness knows (every selector a, argument forms b) applied
+        once to every kind of bundled widget and to its child, with focused and unfocused canvases cached before."""
+        t0, e0 = ["text", 1, 0], ["edit", 1, 0]
+        lb = ["listbox", 1, [["text", 0, 0], ["edit", 0, 0], ["text", 3, 0]]]
+        kinds = [t0, e0, ["intedit", 7], ["checkbox", 0], ["radio", 1], ["button", 1], ["progress", 30],
+                 ["attrmap", t0], ["attrmap", e0], ["linebox", 0, t0], ["linebox", 1, e0], ["padding", 1, 1, t0],
+                 ["padding", 3, 0, t0], ["placeholder", t0], ["wrap", t0], ["pile", [t0, e0]], ["columns", 1, [t0, e0], [0, 1]],
+                 ["gridflow", 2, 1, 0, [t0, e0]], ["boxadapter", 2, lb], ["boxadapter", 2, ["filler", 0, t0]],
+                 ["boxadapter", 2, ["frame", lb, t0, e0]], ["boxadapter", 2, ["overlay", t0, ["solid"]]],
+                 ["boxadapter", 2, ["scrollable", ["pile", [t0, t0, e0, t0]]]], ["boxadapter", 2, ["bargraph", 1]],
+                 ["boxadapter", 2, ["vscale", 0]], ["boxadapter", 2, ["boxattr", lb]]]
+        if tier == "quick":
+            kinds = [k for k in kinds if k[0] not in ("wrap", "placeholder", "intedit", "radio")
+                     and k not in (["padding", 3, 0, t0], ["linebox", 1, e0], ["attrmap", e0], ["boxadapter", 2, ["boxattr", lb]])]
+        for tree in kinds:
+            for idx in (0, 1):
+                for a in range(18):
+                    for b in (range(4) if tier == "quick" else range(12)):
+                        yield {"kind": "real", "mode": "swap", "tree": tree,
+                               "ops": [["render", 2, 0, 1], ["render", 2, 1, 1], ["mut", idx, a, b, 2],
+                                       ["render", 2, 0, 0], ["render", 2, 1, 0]]}
+
     def cases(self, rng, tier):
+        yield from self.single_mutation_cases(tier)
         yield from self.listbox_scroll_cases(tier)
         yield from self.contents_edit_cases(tier)
         yield from self.zero_size_child_cases(tier)
-        nbk = 2500 if tier == "quick" else 20000
+        nbk = 2000 if tier == "quick" else 20000
         for _ in range(nbk):
             yield self.gen_bk(rng)
         # directed: a container that is cached at one size only, over an uncacheable / shared child
         for _ in range(nbk // 10):
             yield self.gen_bk_directed(rng)
-        nreal = 1500 if tier == "quick" else 10000
+        nreal = 800 if tier == "quick" else 10000
         for _ in range(nreal):
             yield self.gen_real(rng)
 
